@@ -161,6 +161,8 @@ func (k Keeper) AllocateConsumerRewards(ctx sdk.Context, consumerId string, allo
 				"chainId", chainId,
 				"error", err.Error(),
 			)
+			// keep the rewards allocated to the consumer: the tokens did not leave the consumer rewards pool
+			return types.ConsumerRewardsAllocation{}, err
 		}
 		k.Logger(ctx).Info(
 			"allocated ICS rewards to community pool",
